@@ -339,7 +339,7 @@ func (this *Hnsw) searchLevel(query math.Vector, entrypoint *hnswVertex, ef, lev
 	candidateVertices := utils.NewMinPriorityQueue(pqItem)
 	resultVertices := utils.NewMaxPriorityQueue(pqItem)
 
-	visitedVertices := make(map[*hnswVertex]struct{}, ef*this.config.mMax0)
+	visitedVertices := make(map[*hnswVertex]struct{}, math.MinInt(ef*this.config.mMax0, this.Len()))
 	visitedVertices[entrypoint] = struct{}{}
 
 	for candidateVertices.Len() > 0 {
